@@ -24,6 +24,7 @@ import SwcVerif.Props.C11Gen
 #print axioms C11.generated_sholl_under_map
 #print axioms C11.generated_rigid_invariance
 #print axioms C11.generated_scale
+#print axioms C11.generated_branch_angle_scale
 #print axioms C11.generated_rigid_source_matrices
 #print axioms C11.generated_counts_coordinate_free
 #print axioms C11.generated_counts_renumbered
